@@ -762,7 +762,15 @@ fn validate(src: &str, opt: Opt, base: &Base, path: Option<&str>, beh_cache: &mu
         let h = kvh::fnv1a(out.as_bytes());
         let b2 = beh_cache.entry(h).or_insert_with(|| run_program(&out, path)).clone();
         if &b2 != b {
-            fails.push(json!({"clause": "3:behaviour", "detail": first_diff(b, &b2), "output": out}));
+            // scripts that touch the file system (koto/tests/io.koto writes a fixed temp file) can be
+            // disturbed by another process: a difference counts only if it is reproducible
+            let again_orig = run_program(src, path);
+            let again_fmt = run_program(&out, path);
+            if &again_orig == b && again_fmt == b2 {
+                fails.push(json!({"clause": "3:behaviour", "detail": first_diff(b, &b2), "output": out}));
+            } else {
+                beh_cache.remove(&h);
+            }
         }
     }
     fails
@@ -2239,10 +2247,10 @@ fn mutants(src: &str, rng: &mut Rng, n: usize) -> Vec<String> {
 /// (finding id, shape on the input program, clause prefixes the finding can explain)
 const FINDINGS: &[(&str, &str, &[&str])] = &[
     ("F-C11-5", "nested_chain_break", &["2:", "3:", "5:"]),
+    ("F-C11-11", "trailing_comment_moved_to_own_line", &["5:idempotence"]),
     ("F-C11-6", "input_line_wider_than_line_length", &["2:", "3:", "5:"]),
     ("F-C11-7", "fmt_skip", &["2:", "3:", "5:"]),
     ("F-C11-8", "comment_after_assign", &["5:idempotence"]),
-    ("F-C11-11", "trailing_comment_moved_to_own_line", &["5:idempotence"]),
     ("F-C11-9", "block_expr_operand", &["2:", "3:", "5:"]),
     ("F-C11-9", "line_starts_with_minus", &["2:", "3:", "5:"]),
     ("F-C11-10", "comment_before_closer", &["2:", "3:", "4:", "5:"]),
@@ -2334,7 +2342,7 @@ impl Ctx {
                     let un255 = self.unexplained(&shapes, &rs[1]);
                     return !un255.iter().any(|f| is_width_clause(f["clause"].as_str().unwrap_or("")));
                 }
-                if opt.ll < 100 && is_width_clause(clause) && self.open.iter().any(|x| x == WIDTH_CLASS) {
+                if opt.ll < 255 && is_width_clause(clause) && self.open.iter().any(|x| x == WIDTH_CLASS) {
                     // must also fail at 255 to be a non-width failure
                     let un255 = self.unexplained(&shapes, &rs[1]);
                     return un255.iter().any(|f| is_width_clause(f["clause"].as_str().unwrap_or("")));
@@ -2461,7 +2469,7 @@ impl Ctx {
             for f in &fails {
                 let clause = f["clause"].as_str().unwrap_or("").to_string();
                 let mut id: Option<String> = self.attribute(&shapes, &oshapes, &clause).map(String::from);
-                if id.is_none() && o.ll < 100 && is_width_clause(&clause) && self.open.iter().any(|x| x == WIDTH_CLASS) {
+                if id.is_none() && o.ll < 255 && is_width_clause(&clause) && self.open.iter().any(|x| x == WIDTH_CLASS) {
                     let c = Opt { ll: 255, ..o };
                     if let Some(r255) = by_opt.get(&c.text()) {
                         let un = self.unexplained(&shapes, r255);
@@ -2818,7 +2826,7 @@ fn main() {
 
     let mut rep = Report::new("C11", &args);
     rep.rule = format!(
-        "case = (program, formatter options) pair validated on clauses (1) no panic/hang/error (2) output parses to the same canonical Ast (3) same result+stdout where runnable and deterministic (4) same comment token sequence (5) format(format p) = format p (6) same multiset of Number/StringLiteral token texts. Programs: repository .koto files, ```koto blocks of all .md files, multi-line string literals of crates/*/tests/*.rs that parse, seeded generated programs in randomised layouts, token-neighbourhood mutants (delete/duplicate/swap one token) of corpus programs that still parse. Options: default + seeded sample of the grid line_length{{20,40,100,255}} x indent_width{{1,2,4,8}} x chain_break_threshold{{0,1,4}} x always_indent_arms (thorough: full grid on a subset). distinct = distinct (program text, options); non-trivial = program with at least 5 Ast nodes. Canonical Ast erases: {}. ENVELOPE: at line_length 20 and 40 a failure of clauses (2),(3),(5) is only a violation when the same program also fails one of them at line_length 255 with the other options equal; at line_length 100 and 255 it is a violation unless some input line, re-indented to block depth x indent_width, is wider than line_length (class finding F-C11-6) or a listed finding's shape applies (width-forced breaking is broadly unsound in the unchanged tree: class finding F-C11-6); clauses (1),(4),(6) are enforced on the whole grid. On token mutants clauses (2),(3),(5) are measured and reported (mutant_not_enforced_*), not enforced: most parseable mutants are inputs the parser accepts by leniency (`f 1,, 2` is the tuple ((f 1), 2); `(null #- c -#)`), a long tail of distinct formatter defects; clauses (1),(4),(6) are enforced on them.",
+        "case = (program, formatter options) pair validated on clauses (1) no panic/hang/error (2) output parses to the same canonical Ast (3) same result+stdout where runnable and deterministic (4) same comment token sequence (5) format(format p) = format p (6) same multiset of Number/StringLiteral token texts. Programs: repository .koto files, ```koto blocks of all .md files, multi-line string literals of crates/*/tests/*.rs that parse, seeded generated programs in randomised layouts, token-neighbourhood mutants (delete/duplicate/swap one token) of corpus programs that still parse. Options: default + seeded sample of the grid line_length{{20,40,100,255}} x indent_width{{1,2,4,8}} x chain_break_threshold{{0,1,4}} x always_indent_arms (thorough: full grid on a subset). distinct = distinct (program text, options); non-trivial = program with at least 5 Ast nodes. Canonical Ast erases: {}. ENVELOPE: at line_length 20, 40 and 100 a failure of clauses (2),(3),(5) is only a violation when the same program also fails one of them at line_length 255 with the other options equal (if the 255 output has no line wider than L the two outputs coincide, so this is exactly 'caused by width-forced breaking'), or — at any line_length — when no input line, re-indented to block depth x indent_width, is wider than line_length (class finding F-C11-6; its most frequent sub-cause, a trailing comment that no longer fits, is identified separately as F-C11-11 and explains clause 5 only) (width-forced breaking is broadly unsound in the unchanged tree: class finding F-C11-6); clauses (1),(4),(6) are enforced on the whole grid. On token mutants clauses (2),(3),(5) are measured and reported (mutant_not_enforced_*), not enforced: most parseable mutants are inputs the parser accepts by leniency (`f 1,, 2` is the tuple ((f 1), 2); `(null #- c -#)`), a long tail of distinct formatter defects; clauses (1),(4),(6) are enforced on them.",
         ERASED
     );
     let open: Vec<String> = rep.known_open().iter().filter_map(|e| e.get("id").and_then(|x| x.as_str()).map(String::from)).collect();
